@@ -245,7 +245,7 @@ func c11Worker(args []string) {
 					}
 					pat := fmt.Sprintf("^w%d_%d[a-z]*%d$", g, k%50, rr.Intn(1000))
 					word := fmt.Sprintf("w%d_%dabc%s", g, k%50, pat[strings.LastIndex(pat, "*")+1:len(pat)-1])
-					script := fmt.Sprintf("c = c + 1; if (Word ~= /%s/ && match(Word, /^w/) && replace(Word, /[0-9]+/, \"\") !~ /[0-9]/ && replace(Word, /q|w|_[0-9]/, \"\") !~ /^w/ && match(Word, /q|w|_[0-9]/) && Word ~= /abc|abcd/) { return c; } return 0 - c;", pat)
+					script := fmt.Sprintf("c = c + 1; if (Word ~= /%s/ && match(Word, /^w/) && replace(Word, /[0-9]+/, \"\") !~ /[0-9]/ && replace(Word, /q|w|_[0-9]/, \"\") !~ /^w/ && match(Word, /q|w|_[0-9]/) && Word ~= /abc|abcd/ && %d + %d == %d && %d * 3 - 1 == %d && 60000 / %d == %d) { return c; } return 0 - c;", pat, g*100+k%97, 7, g*100+k%97+7, g*11+k%13, (g*11+k%13)*3-1, 1+g, 60000/(1+g))
 					if k%5 == 4 {
 						// a pattern that fails to compile at run time (distinct per goroutine
 						// and round): match() reports false, the script still counts
